@@ -1193,13 +1193,13 @@ abbrev AllResolved := C15.AllResolved
 abbrev FlagsHonest := C15.FlagsHonest
 
 /-- The routing model's history as a C15 `ClusterState` history. -/
-def toCOps (kss : List (String × Bool × List String)) (peers : List (Ring.Node × Nat)) (ops : List StateOp) : List C15.COp :=
+def toCOps (kss : List (String × Bool × List String)) (peers : List ((Ring.Node × Nat) × Bool)) (ops : List StateOp) : List C15.COp :=
   .refresh (peers.map toPeer) kss :: ops.map (fun op => match op with
     | .learn spec f l raw => C15.COp.learn spec.1 spec.2 f l raw
     | .refresh ps => C15.COp.refresh (ps.map toPeer) kss)
 
 /-- **`RState.run` is C15's `crun`** on the same history (so every C15 `ClusterState`-level theorem applies). -/
-theorem run_eq_crun (kss : List (String × Bool × List String)) (peers : List (Ring.Node × Nat)) (ops : List StateOp) :
+theorem run_eq_crun (kss : List (String × Bool × List String)) (peers : List ((Ring.Node × Nat) × Bool)) (ops : List StateOp) :
     (RState.init kss peers).run kss ops = C15.crun (toCOps kss peers ops) := by
   have key : ∀ (ops : List StateOp) (st : CState),
       RState.run kss st ops = (ops.map (fun op => match op with
@@ -1222,7 +1222,7 @@ theorem run_eq_crun (kss : List (String × Bool × List String)) (peers : List (
 
 /-- **Along every history** of tablet feedback (also naming hosts that are not known yet) and metadata refreshes the
 two `has_unknown_replicas` flags stay honest (C15 `learn_keeps_flags_honest`, `refresh_resolves_all`). -/
-theorem history_flags_honest (kss : List (String × Bool × List String)) (peers : List (Ring.Node × Nat))
+theorem history_flags_honest (kss : List (String × Bool × List String)) (peers : List ((Ring.Node × Nat) × Bool))
     (ops : List StateOp) : FlagsHonest ((RState.init kss peers).run kss ops).info := by
   have h0 : FlagsHonest (RState.init kss peers).info := (C15.refresh_resolves_all C15.flags_honest_empty _ _ _ _).2
   have step : ∀ (st : RState) (op : StateOp), FlagsHonest st.info → FlagsHonest (st.step kss op).info := by
@@ -1240,8 +1240,8 @@ theorem history_flags_honest (kss : List (String × Bool × List String)) (peers
 /-- **Right after a refresh no tablet has a truncated replica list** - whatever came before, also when the refresh
 removed and re-created nothing (then `has_unknown_replicas` alone opens the maintenance gate; the seeded change "the
 map-level flag is not raised" breaks `learn_keeps_flags_honest`, hence this). -/
-theorem refresh_leaves_nothing_unresolved (kss : List (String × Bool × List String)) (peers : List (Ring.Node × Nat))
-    (ops : List StateOp) (ps : List (Ring.Node × Nat)) :
+theorem refresh_leaves_nothing_unresolved (kss : List (String × Bool × List String)) (peers : List ((Ring.Node × Nat) × Bool))
+    (ops : List StateOp) (ps : List ((Ring.Node × Nat) × Bool)) :
     ∀ e ∈ ((RState.init kss peers).run kss (ops ++ [.refresh ps])).info.tables, AllResolved e.2 := by
   have h := history_flags_honest kss peers ops
   have e : (RState.init kss peers).run kss (ops ++ [.refresh ps]) =
@@ -1256,7 +1256,7 @@ every table of the map after ANY history, the tablet found for a token is the on
 names - the latest learnt tablet covering it unless overlapped or discarded since - and the table's list is sorted and
 disjoint. -/
 theorem history_lookup_refines (kss : List (String × Bool × List String)) (hk : (kss.map (·.1)).Nodup)
-    (peers : List (Ring.Node × Nat)) (ops : List StateOp)
+    (peers : List ((Ring.Node × Nat) × Bool)) (ops : List StateOp)
     (hv : ∀ spec f l raw, StateOp.learn spec f l raw ∈ ops → f ≤ l)
     (spec : String × String) (tbl : Table)
     (h : alGet spec ((RState.init kss peers).run kss ops).info.tables = some tbl) (tok : Int) :
@@ -1285,7 +1285,7 @@ theorem history_lookup_refines (kss : List (String × Bool × List String)) (hk 
 /-- **The replicas the policy is handed are the node objects the cluster state currently knows** (C15
 `refresh_lookups_current`): after ANY history, every replica of the tablet found for a token is registered under its
 host id in `known_nodes`, and every replica of the per-datacenter answer carries exactly that datacenter. -/
-theorem history_replicas_current (kss : List (String × Bool × List String)) (peers : List (Ring.Node × Nat))
+theorem history_replicas_current (kss : List (String × Bool × List String)) (peers : List ((Ring.Node × Nat) × Bool))
     (ops : List StateOp) (spec : String × String) (tbl : Table)
     (hm : (spec, tbl) ∈ ((RState.init kss peers).run kss ops).info.tables) (tok : Int) :
     (∀ reps, replicasForToken tbl.tablets tok = some reps →
@@ -1324,7 +1324,7 @@ are the nodes that state knows (`PeersMatch`): every replica handed to the polic
 `d` (the node the request is sent to, not the copy stored in the tablet), and is one of the tablet's replicas with the
 same shard. Built on C15 `refresh_lookups_current` and `stateOk_run` (per-datacenter view = restriction). -/
 theorem tablet_dc_replicas_in_dc (rc : RCluster) (kss : List (String × Bool × List String))
-    (peers0 : List (Ring.Node × Nat)) (ops : List StateOp) (spec : String × String) (tbl : Table)
+    (peers0 : List ((Ring.Node × Nat) × Bool)) (ops : List StateOp) (spec : String × String) (tbl : Table)
     (hm : (spec, tbl) ∈ ((RState.init kss peers0).run kss ops).info.tables)
     (hp : PeersMatch rc.peers ((RState.init kss peers0).run kss ops).known) (tok : Int) (d : Nat) :
     ∀ r ∈ tabletReplicas rc tbl.tablets tok (some d),
@@ -1371,6 +1371,188 @@ theorem tablet_dc_replicas_in_dc (rc : RCluster) (kss : List (String × Bool × 
       refine List.mem_filterMap.mpr ⟨p, ?_, ?_⟩
       · simp [Tablets.replicasForToken, hl, hall]
       · unfold resolve; rw [hfind]; rfl
+
+/-! `PeersMatch` and the table link discharged for the cluster built from a state (`RCluster.ofState`). -/
+
+private theorem alGet_alSet_same {κ β : Type} [DecidableEq κ] (k : κ) (v : β) (m : List (κ × β)) :
+    alGet k (alSet k v m) = some v := by
+  induction m with
+  | nil => simp [alSet, alGet]
+  | cons x m ih =>
+    obtain ⟨k', v'⟩ := x
+    simp only [alSet]
+    split
+    · simp [alGet]
+    · rename_i hne; simp only [alGet, hne, if_false]; exact ih
+
+private theorem alGet_alSet_ne {κ β : Type} [DecidableEq κ] (k k2 : κ) (v : β) (m : List (κ × β)) (h : k ≠ k2) :
+    alGet k2 (alSet k v m) = alGet k2 m := by
+  induction m with
+  | nil => simp [alSet, alGet, h]
+  | cons x m ih =>
+    obtain ⟨k', v'⟩ := x
+    simp only [alSet]
+    split
+    · rename_i he; subst he; simp [alGet, h]
+    · simp only [alGet]; split
+      · rfl
+      · exact ih
+
+/-- the node object `calculate_new_topology` registers for a peer carries the peer's host id and datacenter -/
+private theorem nodeFor_dc (old : Known) (gen : Nat) (p : TabletsRefresh.Peer) : (nodeFor old gen p).1.node.dc = p.dc := by
+  unfold nodeFor
+  simp only []
+  split
+  · split
+    · rename_i hc
+      simp only [Bool.and_eq_true, decide_eq_true_eq] at hc
+      exact hc.1.1.2
+    · rfl
+  · split
+    · rename_i hc
+      simp only [Bool.and_eq_true, decide_eq_true_eq] at hc
+      split
+      · exact hc.1.2
+      · rfl
+    · rfl
+  · rfl
+
+private theorem newTopology_get (old : Known) (gen : Nat) (peers : List TabletsRefresh.Peer) (hnd : (peers.map (·.hostId)).Nodup) :
+    ∀ p ∈ peers, ∃ kn, alGet p.hostId (newTopology old gen peers).1 = some kn ∧ kn.node.dc = p.dc := by
+  unfold newTopology
+  have key : ∀ (ps : List TabletsRefresh.Peer) (acc : Known × Nat), (ps.map (·.hostId)).Nodup →
+      (∀ p ∈ ps, ∃ kn, alGet p.hostId (ps.foldl (fun (acc : Known × Nat) p =>
+          let r := nodeFor old acc.2 p
+          (alSet p.hostId r.1 acc.1, r.2)) acc).1 = some kn ∧ kn.node.dc = p.dc) ∧
+      (∀ id kn, id ∉ ps.map (·.hostId) → alGet id acc.1 = some kn → alGet id (ps.foldl (fun (acc : Known × Nat) p =>
+          let r := nodeFor old acc.2 p
+          (alSet p.hostId r.1 acc.1, r.2)) acc).1 = some kn) := by
+    intro ps
+    induction ps with
+    | nil => intro acc _; exact ⟨(by intro p hp; cases hp), (by intro id kn _ h; exact h)⟩
+    | cons q ps ih =>
+      intro acc hnd
+      simp only [List.map_cons, List.nodup_cons] at hnd
+      obtain ⟨ih1, ih2⟩ := ih (alSet q.hostId (nodeFor old acc.2 q).1 acc.1, (nodeFor old acc.2 q).2) hnd.2
+      simp only [List.foldl_cons]
+      refine ⟨?_, ?_⟩
+      · intro p hp
+        rcases List.mem_cons.mp hp with rfl | hp
+        · exact ⟨_, ih2 p.hostId _ hnd.1 (alGet_alSet_same _ _ _), nodeFor_dc old acc.2 p⟩
+        · exact ih1 p hp
+      · intro id kn hid hk
+        simp only [List.map_cons, List.mem_cons, not_or] at hid
+        exact ih2 id kn hid.2 (by rw [alGet_alSet_ne _ _ _ _ (Ne.symm hid.1)]; exact hk)
+  exact (key peers ([], gen) hnd).1
+
+private theorem alGet_nodesOf' (k : Known) (id : Nat) : alGet id (nodesOf k) = (alGet id k).map (·.node) := by
+  induction k with
+  | nil => rfl
+  | cons e k ih =>
+    obtain ⟨k0, v⟩ := e
+    simp only [nodesOf, List.map_cons, alGet] at ih ⊢
+    split
+    · rfl
+    · exact ih
+
+/-- **`PeersMatch` holds right after a refresh** whose peers have distinct host ids (whatever the host filter says
+about them, whatever the state before): the node `known_nodes` registers under a peer's host id carries that peer's
+datacenter. Tablet feedback does not touch `known_nodes`, so it keeps holding until the next refresh. -/
+theorem peersMatch_refresh (st : RState) (kss : List (String × Bool × List String)) (ps : List ((Ring.Node × Nat) × Bool))
+    (hnd : (ps.map (·.1.1.id)).Nodup) (learns : List StateOp) (hl : ∀ op ∈ learns, ∃ spec f l raw, op = .learn spec f l raw) :
+    PeersMatch (ps.map (·.1.1)) ((st.step kss (.refresh ps)).run kss learns).known := by
+  have hknown : ((st.step kss (.refresh ps)).run kss learns).known = (st.step kss (.refresh ps)).known := by
+    have key : ∀ (ops : List StateOp) (s0 : RState), (∀ op ∈ ops, ∃ spec f l raw, op = .learn spec f l raw) →
+        (RState.run kss s0 ops).known = s0.known := by
+      intro ops
+      induction ops with
+      | nil => intro s0 _; rfl
+      | cons op ops ih =>
+        intro s0 h
+        obtain ⟨spec, f, l, raw, rfl⟩ := h op List.mem_cons_self
+        simp only [RState.run, List.foldl_cons]
+        exact ih _ (fun o ho => h o (List.mem_cons_of_mem _ ho))
+    exact key learns _ hl
+  rw [hknown]
+  refine ⟨by simpa [List.map_map, Function.comp_def] using hnd, ?_⟩
+  intro n hn
+  obtain ⟨p, hp, rfl⟩ := List.mem_map.mp hn
+  have hnd' : ((ps.map toPeer).map (·.hostId)).Nodup := by
+    simpa [List.map_map, toPeer, Function.comp_def] using hnd
+  obtain ⟨kn, hk, hdc⟩ := newTopology_get st.known st.gen (ps.map toPeer) hnd' (toPeer p) (List.mem_map.mpr ⟨p, hp, rfl⟩)
+  refine ⟨kn.node, ?_, hdc⟩
+  show alGet p.1.1.id (nodesOf (refresh st (ps.map toPeer) kss).known) = some kn.node
+  rw [alGet_nodesOf']
+  simp only [refresh]
+  have : (toPeer p).hostId = p.1.1.id := rfl
+  rw [this] at hk
+  rw [hk]; rfl
+
+/-- **The tablet map of `RCluster.ofState` is the state's**: for a table the cluster knows of (`declared`, no pair
+twice) the tablets `tablets_for_table` answers are exactly those of the state's entry for `(k<ks>, t<tbl>)`. -/
+theorem ofState_tablets (base : RCluster) (st : RState) (declared : List (Nat × Nat)) (r : RRequest) (ks : Nat)
+    (hks : r.rq.table = some ks) (hd : (ks, r.tbl) ∈ declared) (tbl : Table)
+    (ht : alGet (ksName ks, tblName r.tbl) st.info.tables = some tbl) :
+    tabletsOf (RCluster.ofState base st declared) r = some tbl.tablets := by
+  unfold tabletsOf RCluster.ofState
+  simp only [hks]
+  induction declared with
+  | nil => cases hd
+  | cons d ds ih =>
+    simp only [List.filterMap_cons]
+    by_cases he : d = (ks, r.tbl)
+    · subst he
+      simp only [ht, Option.map_some, alGet, if_true]
+    · have hin : (ks, r.tbl) ∈ ds := by
+        rcases List.mem_cons.mp hd with h | h
+        · exact absurd h.symm he
+        · exact h
+      cases hg : alGet (ksName d.1, tblName d.2) st.info.tables with
+      | none => simp only [Option.map_none]; exact ih hin
+      | some t =>
+        simp only [Option.map_some, alGet, he, if_false]
+        exact ih hin
+
+/-- **Preferred datacenter on tablet tables, for the cluster built from a reachable state** (`tablet_dc_replicas_in_dc`
+with its two hypotheses discharged): history `pre`, then a refresh to peers `ps` with distinct host ids, then any
+tablet feedback; the cluster is `RCluster.ofState` on those peers. Every replica the policy is handed for datacenter
+`d` on a declared table is a PEER of datacenter `d` and a replica of the covering tablet with the same shard. -/
+theorem ofState_dc_replicas_in_dc (base : RCluster) (kss : List (String × Bool × List String))
+    (peers0 : List ((Ring.Node × Nat) × Bool)) (pre : List StateOp) (ps : List ((Ring.Node × Nat) × Bool))
+    (learns : List StateOp) (hl : ∀ op ∈ learns, ∃ spec f l raw, op = .learn spec f l raw)
+    (hnd : (ps.map (·.1.1.id)).Nodup) (hbase : base.peers = ps.map (·.1.1))
+    (declared : List (Nat × Nat)) (r : RRequest) (ks : Nat) (hks : r.rq.table = some ks) (hd : (ks, r.tbl) ∈ declared)
+    (tbl : Table)
+    (ht : alGet (ksName ks, tblName r.tbl)
+      ((RState.init kss peers0).run kss (pre ++ .refresh ps :: learns)).info.tables = some tbl) (tok : Int) (d : Nat) :
+    let rc := RCluster.ofState base ((RState.init kss peers0).run kss (pre ++ .refresh ps :: learns)) declared
+    tabletsOf rc r = some tbl.tablets ∧
+    ∀ x ∈ tabletReplicas rc tbl.tablets tok (some d), x.1.dc = some d ∧ x ∈ tabletReplicas rc tbl.tablets tok none := by
+  intro rc
+  refine ⟨ofState_tablets base _ declared r ks hks hd tbl ht, ?_⟩
+  have hmem : ((ksName ks, tblName r.tbl), tbl) ∈
+      ((RState.init kss peers0).run kss (pre ++ .refresh ps :: learns)).info.tables := by
+    have : ∀ (m : List ((String × String) × Table)) k v, alGet k m = some v → (k, v) ∈ m := by
+      intro m
+      induction m with
+      | nil => intro k v h; simp [alGet] at h
+      | cons x m ih =>
+        intro k v h
+        obtain ⟨k', v'⟩ := x
+        simp only [alGet] at h
+        split at h
+        · rename_i hk; cases h; subst hk; exact List.mem_cons_self
+        · exact List.mem_cons_of_mem _ (ih k v h)
+    exact this _ _ _ ht
+  have hsplit : (RState.init kss peers0).run kss (pre ++ .refresh ps :: learns) =
+      (((RState.init kss peers0).run kss pre).step kss (.refresh ps)).run kss learns := by
+    simp [RState.run, List.foldl_append]
+  have hpm : PeersMatch rc.peers ((RState.init kss peers0).run kss (pre ++ .refresh ps :: learns)).known := by
+    rw [hsplit]
+    show PeersMatch base.peers _
+    rw [hbase]
+    exact peersMatch_refresh _ kss ps hnd learns hl
+  exact tablet_dc_replicas_in_dc rc kss peers0 _ _ tbl hmem hpm tok d
 
 /-! "Complete replica list" said outright: the resolved replicas ARE the raw list the servers sent. -/
 
@@ -1439,18 +1621,18 @@ private def n1 : Ring.Node := ⟨1, some 0, some 0⟩
 private def n2 : Ring.Node := ⟨2, some 1, some 0⟩
 private def n4 : Ring.Node := ⟨4, some 0, some 1⟩
 private def kssEx : List (String × Bool × List String) := [("k0", true, ["t0"])]
-private def stEx (ops : List StateOp) : RState := (RState.init kssEx [(n1, 0), (n2, 1)]).run kssEx ops
+private def stEx (ops : List StateOp) : RState := (RState.init kssEx [((n1, 0), false), ((n2, 1), true)]).run kssEx ops
 private def repsEx (st : RState) : List (Nat × Nat) :=
   ((alGet ("k0", "t0") st.info.tables).map (fun t => (replicasForToken t.tablets 50).getD [])).getD [] |>.map
     (fun r => (r.1.hostId, r.2))
-private def lateOps : List StateOp := [.learn ("k0", "t0") 1 100 [(4, 4), (2, 3)], .refresh [(n1, 0), (n2, 1), (n4, 2)]]
+private def lateOps : List StateOp := [.learn ("k0", "t0") 1 100 [(4, 4), (2, 3)], .refresh [((n1, 0), false), ((n2, 1), true), ((n4, 2), true)]]
 example : repsEx (stEx [.learn ("k0", "t0") 1 100 [(4, 4), (2, 3)]]) = [(2, 3)] ∧
     (stEx [.learn ("k0", "t0") 1 100 [(4, 4), (2, 3)]]).info.hasUnknown = true ∧
     repsEx (stEx lateOps) = [(4, 4), (2, 3)] ∧
-    recreatedNodes (stEx []).known (newTopology (stEx []).known (stEx []).gen ([(n1, 0), (n2, 1), (n4, 2)].map toPeer)).1 = [] ∧
-    removedNodes (stEx []).known (newTopology (stEx []).known (stEx []).gen ([(n1, 0), (n2, 1), (n4, 2)].map toPeer)).1 = [] ∧
+    recreatedNodes (stEx []).known (newTopology (stEx []).known (stEx []).gen ([((n1, 0), false), ((n2, 1), true), ((n4, 2), true)].map toPeer)).1 = [] ∧
+    removedNodes (stEx []).known (newTopology (stEx []).known (stEx []).gen ([((n1, 0), false), ((n2, 1), true), ((n4, 2), true)].map toPeer)).1 = [] ∧
     -- a refresh that does not bring the node: the tablet is forgotten, never served truncated
-    repsEx (stEx [.learn ("k0", "t0") 1 100 [(4, 4), (2, 3)], .refresh [(n1, 0), (n2, 1)]]) = [] := by decide
+    repsEx (stEx [.learn ("k0", "t0") 1 100 [(4, 4), (2, 3)], .refresh [((n1, 0), false), ((n2, 1), true)]]) = [] := by decide
 example : PeersMatch [n1, n2, n4] (stEx lateOps).known := by
   refine ⟨by decide, ?_⟩
   intro n hn
